@@ -18,10 +18,6 @@ impl CStr {
     { unimplemented!() }
     #[verifier::external_body]
     pub fn to_bytes(&self) -> (r: &[u8]) ensures r@ == self@ { unimplemented!() }
-    #[verifier::external_body]
-    pub fn as_bytes(&self) -> (r: &[u8]) ensures r@ == self@ { unimplemented!() }
-    #[verifier::external_body]
-    pub fn as_bytes_with_nul(&self) -> (r: &[u8]) ensures r@ == self@.push(0u8) { unimplemented!() }
 }
 #[verifier::external_body]
 pub struct CString { _p: () }
@@ -38,6 +34,10 @@ impl CString {
     #[verifier::external_body]
     pub fn to_bytes(&self) -> (r: &[u8]) ensures r@ == self@ { unimplemented!() }
     #[verifier::external_body]
+    pub fn as_bytes(&self) -> (r: &[u8]) ensures r@ == self@ { unimplemented!() }
+    #[verifier::external_body]
+    pub fn as_bytes_with_nul(&self) -> (r: &[u8]) ensures r@ == self@.push(0u8) { unimplemented!() }
+    #[verifier::external_body]
     pub fn as_ptr(&self) -> (r: *const c_char) { unimplemented!() }
 }
 /// `ptr::copy_nonoverlapping(src, dst, count)`: the obligation is what makes it memory safe here
@@ -49,14 +49,15 @@ pub fn copy_nonoverlapping_bytes(src: &CString, dst: *mut c_char, count: usize)
         count <= src@.len() + 1,                       // [C17.copy.never_beyond_the_source]
         count as int == (if src@.len() <= promised_capacity() { src@.len() as int } else { promised_capacity() as int }),   // [C17.copy.exactly_min_of_link_length_and_buffer_size_bytes]
 { unimplemented!() }
+pub fn cstring_ghost(c: &CString) -> (g: Ghost<Seq<u8>>) ensures g@ == c@ { Ghost(c@) }
 /// the same copy from a byte slice (e.g. `as_bytes_with_nul()`); `body` is the link body the call is about
 #[verifier::external_body]
-pub fn copy_nonoverlapping_slice(src: &[u8], body: Seq<u8>, dst: *mut c_char, count: usize)
+pub fn copy_nonoverlapping_slice(src: &[u8], body: Ghost<Seq<u8>>, dst: *mut c_char, count: usize)
     requires
         !(dst@.addr == 0),                             // [C17.copy.null_buffer_never_written]
         count <= promised_capacity(),                  // [C17.copy.never_beyond_the_callers_buffer]
         count <= src@.len(),                           // [C17.copy.never_beyond_the_source]
-        count as int == (if body.len() <= promised_capacity() { body.len() as int } else { promised_capacity() as int }),   // [C17.copy.exactly_min_of_link_length_and_buffer_size_bytes]
+        count as int == (if body@.len() <= promised_capacity() { body@.len() as int } else { promised_capacity() as int }),   // [C17.copy.exactly_min_of_link_length_and_buffer_size_bytes]
 { unimplemented!() }
 pub mod cmp {
     use vstd::prelude::*;
